@@ -106,7 +106,7 @@ func (r *c18Run) getCanon(b *flavors.Instance, p ppath, mode int) (string, strin
 	if mode&1 == 1 {
 		src = "(send c18-b :get c18-p t)"
 	}
-	o := r.impl.eval(src, map[string]slip.Object{"c18-b": b, "c18-p": pathObject(p, mode&2 == 0)})
+	o := r.impl.eval(src, map[string]slip.Object{"c18-b": b, "c18-p": pathObject(p, mode&2 == 0, mode&8 == 0)})
 	if !o.Ok {
 		return "err " + o.Class, o.Msg
 	}
@@ -136,7 +136,7 @@ func (r *c18Run) bagList(o lib.Outcome) string {
 // genOp chooses the next operation against the bag's current tree.
 func (r *c18Run) genOp(root any) c18Op {
 	g := r.g
-	op := c18Op{Mode: g.r.Intn(8)}
+	op := c18Op{Mode: g.r.Intn(16)}
 	switch n := g.r.Intn(100); {
 	case n < 30:
 		op.Op = "S"
@@ -189,7 +189,7 @@ func (r *c18Run) execOp(b *flavors.Instance, op c18Op) c18OpObs {
 		fmt.Fprintf(os.Stderr, "trace %s %s %s on %s\n", op.Op, p.show(), op.Value, canonAny(b.Any))
 	}
 	ob := c18OpObs{op: op, path: p, steps: p.stepKinds(b.Any), valKind: "-"}
-	pobj := pathObject(p, op.Mode&2 == 0)
+	pobj := pathObject(p, op.Mode&2 == 0, op.Mode&8 == 0)
 	binds := map[string]slip.Object{"c18-b": b, "c18-p": pobj}
 	send := op.Mode&1 == 1
 	switch op.Op {
